@@ -536,7 +536,7 @@ var labelRe = regexp.MustCompile(`^([A-Za-z_][A-Za-z0-9_\-]*):\s+`)
 var propRe = regexp.MustCompile(`//\s*prop\s+((?:C[0-9]+\s*)+)`)
 
 var specKeywords = map[string]bool{
-	"package": true, "func": true, "extern": true, "iface": true, "fieldfunc": true,
+	"package": true, "func": true, "extern": true, "iface": true, "fieldfunc": true, "paramfunc": true,
 	"requires": true, "ensures": true, "assigns": true, "loop": true, "invariant": true,
 	"decreases": true, "pred": true, "props": true, "safety": true, "inline": true,
 	"trusted": true, "pure": true, "protected": true, "moninv": true, "ghost": true,
@@ -657,7 +657,7 @@ func (sp *Specs) loadFile(path string) error {
 		switch d.kw {
 		case "package":
 			pkg = stripComment(d.text)
-		case "func", "extern", "iface", "fieldfunc":
+		case "func", "extern", "iface", "fieldfunc", "paramfunc":
 			name := stripComment(d.text)
 			key := name
 			if d.kw == "func" {
@@ -668,6 +668,10 @@ func (sp *Specs) loadFile(path string) error {
 			}
 			if d.kw == "fieldfunc" {
 				key = "field:" + name
+			}
+			if d.kw == "paramfunc" {
+				// paramfunc <function>.<parameter or captured variable>: contract of calls through it inside that function
+				key = "param:" + pkg + "." + name
 			}
 			if _, dup := sp.Funcs[key]; dup {
 				return fail(d, "duplicate spec for %s", key)
